@@ -28,6 +28,7 @@ type Program struct {
 	Api       []string         `json:"api"`      // API callers: reset | resetall | token | tokenreset | event
 	Shutdown  bool             `json:"shutdown"` // a Shutdown goroutine exists
 	Cycles    int              `json:"cycles"`   // number of Serve/Shutdown cycles (>=1)
+	Overtake  bool             `json:"overtake,omitempty"` // restart as soon as Shutdown has returned, without waiting for the previous Serve call to return
 }
 
 // Violation found by a monitor.
